@@ -128,6 +128,8 @@ func (o dOp) String() string {
 		return fmt.Sprintf("%s(k%d)", o.K, o.C)
 	case "tick":
 		return fmt.Sprintf("tick(%d)", o.D)
+	case "purge":
+		return "session-purge"
 	case "foreign":
 		return fmt.Sprintf("foreign(%s,%s)", hMACName[o.FMAC], o.Req)
 	}
@@ -575,6 +577,17 @@ func runDHCPOn(tb drv.TB, rec *drv.Rec, sub string, h dhcpHistory, or dhcpOracle
 			if p, sig, st := drv.Catch(func() { env.h.MinuteTicker(time.Now().Add(d)) }); p != nil {
 				violate(step, sig, "MinuteTicker panicked: %v\n%s", p, st)
 				return
+			}
+		case "purge": // the session forgets silent stations (offline after 6 min, removed after 70 min) while their leases (4 h) go on
+			for _, d := range []time.Duration{6 * time.Minute, 70 * time.Minute} {
+				if p, sig, st := drv.Catch(func() { env.s.VerifPurge(time.Now().Add(d)) }); p != nil {
+					violate(step, sig, "purge panicked: %v\n%s", p, st)
+					return
+				}
+			}
+			waitNoGoroutine(2*time.Second, "packet.(*Session).purge.func")
+			for len(env.s.C) > 0 {
+				<-env.s.C
 			}
 		case "foreign":
 			ip := resolve(op.Req)
